@@ -3,9 +3,16 @@
 registered checks report it.  usage: record_mutant.py <prop> <letter> <worktree> [demo extra args]"""
 import json, os, re, shutil, subprocess, sys
 prop, letter, wt = sys.argv[1:4]
-extra = " ".join(sys.argv[4:])
+out_letter = letter
+rest = sys.argv[4:]
+if "--as" in rest:
+    i = rest.index("--as")
+    out_letter = rest[i + 1]
+    rest = rest[:i] + rest[i + 2:]
+sys.argv = sys.argv[:4] + rest
+extra = " ".join(rest)
 src = os.path.join(wt, "MUTANTS", letter)
-dst = os.path.join("/verif/seeded", "%s-%s" % (prop, letter))
+dst = os.path.join("/verif/seeded", "%s-%s" % (prop, out_letter))
 os.makedirs(dst, exist_ok=True)
 for f in ("patch.diff", "demo.rs", "README.md"):
     if os.path.exists(os.path.join(src, f)):
@@ -30,7 +37,7 @@ rcs = dict(re.findall(r"(C\d+) rc=(\d)", out))
 notes = open(os.path.join(dst, "AUTHOR_NOTES.md")).read() if os.path.exists(os.path.join(dst, "AUTHOR_NOTES.md")) else ""
 crate = (conf[-2].split()[0].split("=")[1] if len(conf) >= 2 else "?") if conf is not None else old.get("crate", "?")
 meta = {
-    "id": "%s-%s" % (prop, letter),
+    "id": "%s-%s" % (prop, out_letter),
     "breaks_property": prop,
     "crate": crate,
     "origin": "independent sub-agent given only the property text and a scratch worktree",
